@@ -89,6 +89,18 @@ fn single_run(c: &c01::BarCase, fault: Option<FaultPlan>) -> Result<(Vec<Result<
         }
         got.push(getters(&pb));
     }
+    // "later calls keep working": once the terminal works again, a forced redraw of the unchanged state
+    // reaches it
+    let fired_total = vt.lock().faults_fired;
+    if fired_total > 0 && !st.finished() && !st.frame().is_empty() {
+        vt.set_fault(None);
+        let calls = vt.ncalls();
+        catch(|| pb.force_draw()).map_err(|p| Fail::new("panic", format!("force_draw after the terminal recovered panicked ({fault:?}): {p}")))?;
+        ensure!(vt.ncalls() > calls, "dead_after_fault", "after {fired_total} failed terminal call(s) ({fault:?}) the terminal works again, but force_draw() of the bar made no terminal call; ops {:?}", c.ops);
+        // (what the screen looks like after failed writes is not specified: only that the redraw is attempted)
+        struck.push("recovered_and_redrawn");
+        vt.set_fault(fault.map(|f| FaultPlan { at: usize::MAX, ..f }));
+    }
     let before = vt.lock().faults_fired;
     pb.drop_now().map_err(|p| Fail::new("panic", format!("dropping the bar panicked with a failing terminal ({fault:?}): {p}")))?;
     if vt.lock().faults_fired > before {
@@ -164,6 +176,32 @@ fn multi_run(c: &MultiCase, fault: Option<FaultPlan>) -> Result<MultiTrace, Fail
             }
         }
         tr.getters.push(it.handles.iter().map(|h| getters(&h.pb)).collect());
+    }
+    // "later calls on the same and on sibling bars keep working": once the terminal works again, a tick of
+    // one live bar repaints the group, and every member that has a rendering is part of that frame
+    let fired_total = it.vt.lock().faults_fired;
+    if fired_total > 0 && !it.model.bottom_ever {
+        it.vt.set_fault(None);
+        if let Some(h) = it.handles.iter().find(|h| h.member && !h.pb.is_finished()) {
+            let calls = it.vt.ncalls();
+            clock::advance(Duration::from_millis(5));
+            catch(|| h.pb.tick()).map_err(|p| Fail::new("panic", format!("tick after the terminal recovered panicked ({fault:?}): {p}")))?;
+            ensure!(it.vt.ncalls() > calls, "dead_after_fault", "after {fired_total} failed terminal call(s) ({fault:?}) the terminal works again, but tick() of live bar B{} made no terminal call; ops {:?}", h.tag, c.ops);
+            if let Ok(lines) = it.vt.last_frame_lines() {
+                for e in it.model.entries.iter().filter(|e| e.drawn.as_ref().map_or(false, |d| d.iter().any(|l| !l.is_empty()))) {
+                    let tag = format!("B{}:", e.tag);
+                    ensure!(
+                        lines.iter().any(|l| l.starts_with(&tag)),
+                        "sibling_lost_after_fault",
+                        "after {fired_total} failed terminal call(s) ({fault:?}) and recovery, the frame repainted by tick() of B{} lacks member {tag} (frame {lines:?}); ops {:?}",
+                        h.tag,
+                        c.ops
+                    );
+                }
+                tr.struck.push("recovered_and_redrawn");
+            }
+        }
+        it.vt.set_fault(fault.map(|f| FaultPlan { at: usize::MAX, ..f }));
     }
     let before = it.vt.lock().faults_fired;
     it.teardown().map_err(|f| Fail::new("panic", format!("{} (failing terminal {fault:?})", f.msg)))?;
@@ -387,7 +425,7 @@ pub fn property() -> Property {
                 cases: |t| t.pick(4_000, 800_000),
                 run: run_single,
                 signature: no_signature,
-                essential: &["set_tab_width", "suspend", "println", "finish", "draw", "drop"],
+                essential: &["set_tab_width", "suspend", "println", "finish", "draw", "drop", "recovered_and_redrawn"],
                 workers: w,
                 decode: Some(decode_c18_single),
             }),
@@ -395,8 +433,26 @@ pub fn property() -> Property {
                 name: "multi",
                 rule: "C02 MultiProgress histories (incl. set_tab_width, mp.suspend, bar.suspend, mp.println, mp.clear, drop and final teardown) x the same fault plans; additionally mp.println/mp.clear must return Err when a terminal call failed during them, and sibling bars must keep working",
                 strategy: |t| {
-                    (crate::props::c02::history_strategy(t), fault_strategy(), proptest::collection::vec((any::<u16>(), any::<u16>()), 0..3))
-                        .prop_map(|(mut multi, fault, detaches)| {
+                    (crate::props::c02::history_strategy(t), fault_strategy(), proptest::collection::vec((any::<u16>(), any::<u16>()), 0..3), 0u8..8)
+                        .prop_map(|(mut multi, fault, detaches, shape)| {
+                            // a quarter of the cases start with a bottom-aligned group of 3-4 drawn bars that is then
+                            // cleared or shrunk in one draw (several blank rows are written by that single call)
+                            if shape < 2 {
+                                let bar = BarSpec { two_lines: false, len: Some(5), on_finish: 0, msg: String::new() };
+                                let mut pre = vec![MOp::SetAlignment(true)];
+                                let n = 3 + shape as usize;
+                                for k in 0..n {
+                                    pre.push(MOp::Add(bar.clone()));
+                                    pre.push(MOp::Tick((k * 65535 / n) as u16));
+                                }
+                                if shape == 0 {
+                                    pre.push(MOp::MpClear);
+                                } else {
+                                    pre.extend([MOp::Remove(0), MOp::Remove(0), MOp::Remove(0), MOp::MpPrintln("x".into())]);
+                                }
+                                pre.extend(multi.ops.drain(..));
+                                multi.ops = pre;
+                            }
                             // set_draw_target on a member (leaves the MultiProgress through disconnect) is a public call too
                             for (pos, sel) in detaches {
                                 let at = pick(pos, multi.ops.len() + 1);
